@@ -30,6 +30,7 @@ import (
 	"github.com/aergoio/aergo/v2/consensus/impl/dpos/slot"
 	"github.com/aergoio/aergo/v2/contract/system"
 	"github.com/aergoio/aergo/v2/internal/enc/proto"
+	"github.com/aergoio/aergo/v2/p2p/p2pkey"
 	"github.com/aergoio/aergo/v2/pkg/component"
 	"github.com/aergoio/aergo/v2/state"
 	"github.com/aergoio/aergo/v2/types"
@@ -323,8 +324,9 @@ type env struct {
 	run  *vh.Run
 	rng  *vh.Rng
 	w    *world
-	iv   int64
-	seen map[string]int
+	iv     int64
+	seen   map[string]int
+	scenNo int
 }
 
 type scen struct {
@@ -338,6 +340,8 @@ type scen struct {
 	past    int64 // next unused slot for blocks with past timestamps
 	failed  bool
 	shape   string
+	self     string // peer id of the validating node ("" = no identity)
+	selfKind string
 }
 
 func (e *env) newScen(shape string) *scen {
@@ -355,6 +359,32 @@ func (e *env) newScen(shape string) *scen {
 		s.lib = fmt.Sprint(lib)
 	}
 	s.n = e.w.newNode(ids, lib)
+	// who validates: the verdict must not depend on the validating node's own identity (p2pkey as InitNodeInfo sets it):
+	// never initialised, a key outside the producer list, or one of the producers (each in turn over the scenarios)
+	e.scenNo++
+	switch e.scenNo % 4 {
+	case 0:
+		p2pkey.VerifC09SetNodeKey(nil)
+		s.selfKind = "none"
+	case 1:
+		for {
+			p := e.w.pool[rng.Intn(len(e.w.pool))]
+			in := false
+			for _, id := range ids {
+				in = in || id == p.ID
+			}
+			if !in {
+				p2pkey.VerifC09SetNodeKey(p.Priv)
+				s.self = p.ID
+				break
+			}
+		}
+		s.selfKind = "outsider"
+	default:
+		s.self = ids[(e.scenNo/4)%len(ids)]
+		p2pkey.VerifC09SetNodeKey(e.w.byID[s.self].Priv)
+		s.selfKind = "producer"
+	}
 	s.past = c09lib.SlotOf(e.iv, time.Now().UnixNano()) - 2000 - int64(rng.Intn(100000))
 	return s
 }
@@ -396,7 +426,21 @@ func bkey(b *types.Block) string {
 }
 
 func (s *scen) make(name string, parent *mblock, k kind) *mblock {
-	b := s.e.w.build(s.e.rng, name, parent, k, s.e.iv, s.slotFor(k), s.ids)
+	slotNo := s.slotFor(k)
+	switch k {
+	case "other-header", "other-key", "empty-sig", "nil-sig", "garbage-sig":
+		// half of the badly signed blocks name the VALIDATOR's own key (the slot's owner is the validating node)
+		if s.selfKind == "producer" && s.e.rng.Chance(1, 2) {
+			for i := 0; i < len(s.ids) && s.ids[slotNo%int64(len(s.ids))] != s.self; i++ {
+				slotNo++
+			}
+			s.past = slotNo
+		}
+	}
+	b := s.e.w.build(s.e.rng, name, parent, k, s.e.iv, slotNo, s.ids)
+	if j := c09lib.JudgeSig(b.blk.Header); j.Key == s.self && s.self != "" {
+		s.e.run.Count(fmt.Sprintf("validator-identity: block names the validator's own key, signature %s", j.Class))
+	}
 	s.register(b)
 	return b
 }
@@ -456,6 +500,7 @@ func (s *scen) fail(what string, rep map[string]interface{}) {
 	}
 	s.failed = true
 	rep["scenario"] = s.shape
+	rep["validatorIdentity"] = s.selfKind + " " + s.self
 	rep["history"] = s.log
 	rep["intervalMs"] = s.e.iv
 	s.e.run.Fail(what, rep)
@@ -479,6 +524,8 @@ func (s *scen) finish(expect map[*mblock]bool) {
 		s.e.run.Op(fmt.Sprintf("accept %d %d %s %d %d %s %s %s", s.e.iv, b.nowNs, s.lib, b.blk.BlockNo(), b.blk.Header.Timestamp, j.Key, j.Class,
 			strings.Join(b.ids, " ")), fmt.Sprint(b.everMain), true)
 	}
+	s.e.run.Count("validator-identity scenario " + s.selfKind)
+	p2pkey.VerifC09SetNodeKey(nil)
 	s.e.run.Count(fmt.Sprintf("calls: VerifyTimestamp>0=%v VerifySign>0=%v IsBlockValid>0=%v", s.n.cons.calls[0] > 0, s.n.cons.calls[1] > 0, s.n.cons.calls[2] > 0))
 	s.n.close()
 }
@@ -603,7 +650,14 @@ func (e *env) carriedHash() {
 	}
 	forge := func(name string, parent *mblock, hash []byte) *mblock {
 		// the entitled producer's key in the header, no signature of that producer
-		f := s.e.w.build(s.e.rng, name, parent, []kind{"garbage-sig", "other-key", "other-header"}[e.rng.Intn(3)], s.e.iv, s.slotFor("legit"), s.ids)
+		slotNo := s.slotFor("legit")
+		if s.selfKind == "producer" && e.rng.Chance(1, 2) {
+			for i := 0; i < len(s.ids) && s.ids[slotNo%int64(len(s.ids))] != s.self; i++ {
+				slotNo++
+			}
+			s.past = slotNo
+		}
+		f := s.e.w.build(s.e.rng, name, parent, []kind{"garbage-sig", "other-key", "other-header"}[e.rng.Intn(3)], s.e.iv, slotNo, s.ids)
 		f.blk.Hash = append([]byte{}, hash...)
 		f.kind = "forged-under-carried-hash"
 		s.register(f)
